@@ -399,7 +399,13 @@ class GBNFCompiler:
         Returns:
             GBNF literal: "value"
         """
-        value = str(constraint.const_value)
+        const_value = constraint.const_value
+        if isinstance(const_value, bool):
+            value = "true" if const_value else "false"  # OCTAVE spelling, not Python's "True"/"False"
+        elif const_value is None:
+            value = "null"
+        else:
+            value = str(const_value)
         escaped = self._escape_literal(value)
         return f'"{escaped}"'
 
